@@ -7,6 +7,7 @@ import (
 	"os/exec"
 	"path/filepath"
 	"sort"
+	"strconv"
 	"strings"
 	"time"
 
@@ -21,7 +22,7 @@ func init() {
 	core.Register(&core.Prop{
 		ID:    "C02",
 		Level: "exploration",
-		Rule: "generated templates biased to what consumes maps (for/tablerow over maps of 2..12 entries with offset/limit/reversed, map-to-array filters first/last/join/sort/map/reverse/uniq/size/concat/compact, printing of maps, IterationKeyedMap, yaml.MapSlice, nested maps, maps inside Drops) plus general generated programs and application tags that write variables (Context.Set, and through the map Context.Bindings returns); for every case ALL of these must give byte-identical output (or the same error text, line and path): 30 renders of one parsed template, 10 fresh parses, 5 fresh engines, the six entry points Render / RenderString / FRender / ParseAndRender / ParseAndRenderString / ParseAndFRender (every fourth case also re-spelled with custom delimiters on engines configured with them), 6 rebuilds of the binding maps in PRNG-permuted insertion order with different capacities, and a fresh child process re-rendering every case of the shard; plus a date family: date strings written in 16 layouts x 9 zone spellings, each rendered through the date filter and through comparisons after different histories of other date strings (what was parsed earlier in the process must not matter); plus the cmd/liquid binary (stdin and FILE argument, --env under env -i, with and without --strict) against the library. Non-trivial = the template consumes a map with >= 2 entries; distinct = distinct (template, logical bindings).",
+		Rule: "generated templates biased to what consumes maps (for/tablerow over maps of 2..12 entries with offset/limit/reversed, map-to-array filters first/last/join/sort/map/reverse/uniq/size/concat/compact, printing of maps, IterationKeyedMap, yaml.MapSlice, nested maps, maps inside Drops) plus general generated programs and application tags that write variables (Context.Set, and through the map Context.Bindings returns); for every case ALL of these must give byte-identical output (or the same error text, line and path): 30 renders of one parsed template, 10 fresh parses, 5 fresh engines, the six entry points Render / RenderString / FRender / ParseAndRender / ParseAndRenderString / ParseAndFRender (every fourth case also re-spelled with custom delimiters on engines configured with them), 6 rebuilds of the binding maps in PRNG-permuted insertion order with different capacities, and two fresh child processes re-rendering every case of the shard, the second one in the opposite order; plus a date family: date strings written in 16 layouts x 9 zone spellings, each rendered through the date filter and through comparisons after different histories of other date strings (what was parsed earlier in the process must not matter); plus the cmd/liquid binary (stdin and FILE argument, --env under env -i, with and without --strict) against the library. Non-trivial = the template consumes a map with >= 2 entries; distinct = distinct (template, logical bindings).",
 		Exhaustive: func(string) bool { return false },
 		Assumptions: []string{
 			"the map/program templates never use date/now and children run with TZ=UTC (the property exempts clock and time zone); the date family parses fixed date strings (never now) and is compared within one process only, where the time zone is one",
@@ -95,6 +96,9 @@ func c02Gen(r *core.Rand, i int) c02case {
 		"{{ mixed | compact | size }}{{ mixed | size }}{{ arr | reverse | first }}{{ arr | first }}{{ arr | uniq | size }}{{ arr | size }}",
 		// maps with interface keys: string keys, then non-string keys of several kinds, numerically equal keys of different types
 		"{% for kv in anys %}{{ kv[0] }}={{ kv[1] }};{% endfor %}|{% for kv in anyn %}{{ kv[0] }}={{ kv[1] }};{% endfor %}|{% for kv in anye %}{{ kv[1] }};{% endfor %}",
+		// properties that are methods or tagged fields; each template touches ONE of the struct bindings, so that which
+		// representation a process sees first depends on the order of the cases
+		"{{ msv.Title }}|{{ msv.Upper }}|{{ msv.Slug }}", "{{ msp.Title }}|{{ msp.Upper }}|{{ msp.Slug }}", "{{ ta.label }}:{{ ta.cost }}:{{ ta.Sku }}", "{{ tb.label }}:{{ tb.cost }}:{{ tb.Sku }}",
 		// typed containers of pointers written out whole
 		"{{ pm }}|{{ ps | join: ',' }}|{{ ps }}|{{ pps }}|{{ mps }}", "{{ 'x' | append: ps }}|{{ pm | join: '+' }}|{{ mps.k | join: ',' }}|{{ pps | first | join: ',' }}|{{ pm.a }}{{ pst.s.Name }}{{ pps[1][0] }}",
 		// application tags that write: what they write belongs to one render
@@ -174,6 +178,9 @@ func (cs c02case) bind(r *core.Rand) map[string]any {
 	b["pps"] = [][]*int{{pi(1), pi(2)}, {pi(3)}}
 	b["mps"] = map[string][]*string{"k": {ps("v"), ps("w")}}
 	b["pst"] = map[string]*gen.DataStruct{"s": {Name: "nm", Count: 2}}
+	// one struct type by value and by pointer (different method sets), two struct types with liquid tags
+	b["msv"], b["msp"] = gen.MethodStruct{Title: "Hello World"}, &gen.MethodStruct{Title: "Other Title"}
+	b["ta"], b["tb"] = gen.TaggedA{Name: "lamp", Price: 5, Sku: "SKU-1"}, &gen.TaggedB{Email: "ada@example.org", Full: "Ada", Sku: 7}
 	flat, _ := cs.env.Lookup("flat")
 	b["dm"] = gen.DropV{X: gen.Realise(flat, r, gen.Rep{}, true)}
 	return b
@@ -184,7 +191,15 @@ func runC02(c *core.Ctx) {
 	n := c.Pick(20000, 300000)
 	digest := &bytes.Buffer{}
 	e := c02Engine()
-	for i := 0; i < n; i++ {
+	// the second child process walks the cases in the opposite order: whatever the process remembers from earlier
+	// renders (per-type tables, layout hints, pools) is then built up in another order than in the parent
+	reverse := child && os.Getenv("VCHECK_C02_REVERSE") == "1"
+	var lines []string
+	for step := 0; step < n; step++ {
+		i := step
+		if reverse {
+			i = n - 1 - step
+		}
 		if !c.Mine(i) {
 			continue
 		}
@@ -200,7 +215,7 @@ func runC02(c *core.Ctx) {
 		} else {
 			base = core.Render(tpl, b0)
 		}
-		fmt.Fprintf(digest, "%d\t%x\n", i, core.HashString(base.Brief()))
+		lines = append(lines, fmt.Sprintf("%09d\t%x", i, core.HashString(base.Brief())))
 		if child {
 			c.Eval(1)
 			continue
@@ -293,6 +308,10 @@ func runC02(c *core.Ctx) {
 			c.Sample(map[string]any{"source": cs.src, "executions": len(all), "result": core.Trunc(base.Brief(), 200)})
 		}
 	}
+	sort.Strings(lines) // by case number, whatever the order of execution was
+	for _, l := range lines {
+		digest.WriteString(l + "\n")
+	}
 	if child {
 		os.WriteFile(filepath.Join(c.WorkDir, fmt.Sprintf("c02-child-%02d.digest", c.Shard)), digest.Bytes(), 0o644)
 		return
@@ -303,7 +322,7 @@ func runC02(c *core.Ctx) {
 		sub := filepath.Join(c.WorkDir, fmt.Sprintf("c02-sub-%02d-%d", c.Shard, gen))
 		os.MkdirAll(sub, 0o755)
 		cmd := exec.Command(os.Args[0], "--worker", "C02", c.Tier, fmt.Sprint(c.Seed), fmt.Sprint(c.Shard), fmt.Sprint(c.NShards), sub, "0", ",")
-		cmd.Env = append(os.Environ(), "VCHECK_C02_CHILD=1", "TZ=UTC")
+		cmd.Env = append(os.Environ(), "VCHECK_C02_CHILD=1", "TZ=UTC", fmt.Sprintf("VCHECK_C02_REVERSE=%d", gen))
 		out, err := cmd.CombinedOutput()
 		got, rerr := os.ReadFile(filepath.Join(sub, fmt.Sprintf("c02-child-%02d.digest", c.Shard)))
 		os.RemoveAll(sub)
@@ -317,11 +336,10 @@ func runC02(c *core.Ctx) {
 		c.Obs("cross_process_cases", int64(len(want)))
 		for k := 0; k < len(want) && k < len(have); k++ {
 			if want[k] != have[k] {
-				var idx int
-				fmt.Sscan(want[k], &idx)
+				idx, _ := strconv.Atoi(strings.TrimLeft(strings.SplitN(want[k], "\t", 2)[0], "0"))
 				cs := c02Gen(c.Rand(idx), idx)
 				c.Violate("cross-process|"+c18Feature(cs.src), "a fresh process rendered the same template and bindings differently",
-					map[string]any{"source": cs.src, "bindings": core.Trunc(cs.env.String(), 600), "parent_digest": want[k], "child_digest": have[k]})
+					map[string]any{"source": cs.src, "bindings": core.Trunc(cs.env.String(), 600), "parent_digest": want[k], "child_digest": have[k], "child_order": []string{"same as the parent", "reversed"}[gen]})
 				break
 			}
 		}
